@@ -94,6 +94,14 @@ class FS:
         self.latched = None
         self.writes = 0           # state-changing operations performed (for "loading never writes")
         self.frozen = False
+        self.epoch = 0            # process generation: handles of a dead process never publish anything
+        self.crashed_at = None    # the tick (log entry) at which the crash was delivered
+
+    def reboot(self):
+        """The process is gone: buffered data of its open handles is lost, a pending crash is forgotten."""
+        self.epoch += 1
+        self.latched = None
+        self.crash_at = None
 
     # ---- ticks and crashes
     def tick(self, what):
@@ -108,8 +116,10 @@ class FS:
         if k is not None:
             if isinstance(k, Sym):
                 if bool(k == i):
+                    self.crashed_at = what
                     raise Crash(f'{i}:{what}')
             elif k == i:
+                self.crashed_at = what
                 raise Crash(f'{i}:{what}')
 
     # ---- tree access
@@ -422,6 +432,7 @@ class MHandle:
         self.r = None
         self.writing = any(c in mode for c in 'wax')
         fs = self.fs
+        self.epoch = fs.epoch
         if self.writing:
             d = fs.node(path.parts[:-1])
             if not isinstance(d, DirNode):
@@ -493,6 +504,9 @@ class MHandle:
 
     def flush(self):
         if self.closed or not self.writing or not self.buf:
+            return
+        if self.epoch != self.fs.epoch:
+            self.buf = []          # handle of a process that died: its buffer never reaches the disk
             return
         data, self.buf = self.buf, []
         try:
